@@ -55,6 +55,7 @@ def main(argv):
     budget = None
     runs = None
     replay = None
+    minimise = None
     one = None
     digests = None
     it = iter(args)
@@ -69,6 +70,8 @@ def main(argv):
             runs = int(next(it))
         elif a == "--replay":
             replay = os.path.abspath(next(it))
+        elif a == "--minimise":
+            minimise = os.path.abspath(next(it))
         elif a == "--one":
             one = int(next(it))
         elif a == "--digests":
@@ -80,6 +83,8 @@ def main(argv):
         from sim import selftest
 
         return selftest.cmd_digests(prop, seed, digests, tier)
+    if minimise:
+        return driver.cmd_minimise(prop, minimise, budget or 30)
     if replay:
         return driver.cmd_replay(prop, replay)
     if one is not None:
